@@ -52,7 +52,7 @@ func c16Body(e *Env) {
 		g.NoReopen = true
 		r.AfterCreate = func() {
 			if r.Cfg.TxidBase != 0 {
-				r.F.Close()
+				r.E.CloseFile(r.F)
 				r.F = nil
 				rebaseTxids(r.D.Content(), r.Cfg.PageSize, r.Cfg.TxidBase)
 				if err := r.Open(); err != nil {
@@ -171,7 +171,7 @@ func c16Body(e *Env) {
 		}
 		if expErr {
 			if err == nil {
-				r2.F.Close()
+				r2.E.CloseFile(r2.F)
 				e.Fail("C16", "both-damaged-opened", "%s: Open succeeded although no header is intact", desc)
 				c.Damage = dm
 			}
@@ -195,7 +195,7 @@ func c16Body(e *Env) {
 		if e.Failed() {
 			c.Damage = dm
 		}
-		r2.F.Close()
+		r2.E.CloseFile(r2.F)
 	}
 	if c.Damage != nil { // replay one damage
 		eval(c.Damage)
